@@ -1544,6 +1544,25 @@ class C04(Prop):
             line = impl.split(" | ", 1)[1] if " | " in impl else ""
             if re.search(r"<[^;<>]*>\s*\(", line):
                 return "comparison-chain-read-as-template-arguments"
+            src = self._source(case)
+            if src and "no matching function for call to" in impl and re.search(r"\b\w+\s*\([^(){};]*=[^(){};]*\)\s*;", src):
+                return "default-argument-on-forward-declaration"
+            m = re.search(r"'(\w+)' was not declared in this scope", impl)
+            if src and m and "template" in src and re.search(r"\benum\s+%s\b" % re.escape(m.group(1)), src[src.index("template"):]):
+                return "template-instantiated-before-its-enum-argument"
+        return None
+
+    @staticmethod
+    def _source(case):
+        w = case.split()
+        if len(w) == 2 and w[0] == "S":
+            root = os.path.dirname(os.path.dirname(os.path.abspath(__file__)))
+            for prefix, base in (("verif:", root), ("file:", os.environ.get("RSSL_REPO", "/repo")), ("abs:", "")):
+                if w[1].startswith(prefix):
+                    try:
+                        return open(os.path.join(base, w[1][len(prefix):]) if base else w[1][len(prefix):], encoding="utf-8", errors="replace").read()
+                    except OSError:
+                        return None
         return None
 
     def nontrivial(self, case, impl):
@@ -1706,12 +1725,13 @@ class C03(Prop):
     REQUIRED = {"const-write", "const-compound", "const-incr", "rvalue-write", "rvalue-incr", "call-write", "literal-write", "out-rvalue", "out-const", "inout-literal",
                 "arity-more", "arity-less", "arg-struct", "arg-void", "ret-struct", "ret-void-value", "ret-missing-value", "const-member-write", "const-param-write",
                 "const-array-write", "swizzle-repeat-write", "cbuffer-write", "static-const-global-write", "out-other-scalar", "out-other-vector", "inout-other-vector",
-                "out-wider-vector", "out-member-of-const", "out-swizzle-repeat", "out-enum-for-int"}
+                "out-wider-vector", "out-member-of-const", "out-swizzle-repeat", "out-enum-for-int",
+                "const-nested-member-write", "const-nested-array-write", "const-nested-incr", "out-nested-member-of-const", "cbuffer-nested-write", "const-array-of-struct-write"}
     assumptions = [
         "theorems are about the checker `wt` (coq/model/IRType.v), the specification of well-typed IR: a passed check means every node's type is the one derived bottom-up, every operand has exactly the required type, writes go to lvalues whose path goes through nothing const, calls match their signature, returns and initialisers match; there is no model of the elaborator, so 'every accepted program passes' is observed (the extracted checker runs on the IR of every program the harness type checks), not proved",
         "each node of the dump carries the type Expression::get_type answers (its assertions are caught and reported as IRFAULT); nodes the checker does not model (object members, matrix swizzles, mesh / make-signed intrinsics) are taken at that type, their operands are still checked",
         "conditions of if / while / for are not required to be bool and aggregate initialisers are only checked element by element (the property's list does not name them)",
-        "rejection: a well-typed generated program plus one function with a single injected violation must be rejected; 30 violation kinds are demanded (writes to const / non-lvalues in every form, out / inout arguments, arity, unconvertible arguments, wrong returns), 11 further kinds are counted only",
+        "rejection: a well-typed generated program plus one function with a single injected violation must be rejected; 36 violation kinds are demanded (writes to const / non-lvalues in every form, out / inout arguments, arity, unconvertible arguments, wrong returns), 11 further kinds are counted only",
     ]
 
     def kind(self, case):
